@@ -254,10 +254,13 @@ class PowerGas(Gas):
 
     def write(self, output):
         gas_entry = super().write(output)
-        gas_entry.write_scalar('alpha', self.alpha)
-        gas_entry.write_scalar('mix_ratio_surface', self.mixRatioSurface)
-        gas_entry.write_scalar('beta',self.beta)
-        gas_entry.write_scalar('gamma',self.gamma)
+        gas_entry.write_string('profile_type', self._profile_type)
+        for name, value in (('alpha', self._alpha),
+                            ('mix_ratio_surface', self._mix_surface),
+                            ('beta', self._beta), ('gamma', self._gamma)):
+            # None selects the tabulated coefficient of the profile type
+            if value is not None:
+                gas_entry.write_scalar(name, value)
 
         return gas_entry
 
